@@ -4,7 +4,7 @@ use crate::cfg::{render, render_lines, oline_text, CfgSpec, Deco, Rend};
 use super::fuzzsub::FuzzSub;
 use crate::engine::{PropSub, Property, Stats};
 use crate::gen::{census, G};
-use crate::odom;
+use proptest::prelude::*;
 use crate::util::{cw, line_width};
 
 pub fn check_width(case: &DocCase, st: &mut Stats) -> Result<(), String> {
@@ -105,9 +105,14 @@ fn regression_items() -> Vec<WidthCase> {
     ]
 }
 
+/// cfg_bounded, a quarter of the time with use_doc_css (style attributes of literal-markup leaves: white-space, colour, display)
+fn cfg_bounded_css() -> BoxedStrategy<CfgSpec> {
+    (cfg_bounded(), proptest::bool::weighted(0.25)).prop_map(|(mut c, css)| { c.doc_css = css; c }).boxed()
+}
+
 pub fn property() -> Property {
-    let g = G::default().depth(3).with_digit_sup();
-    let g2 = G::default().depth(2).with_digit_sup();
+    let g = G::default().depth(3).with_digit_sup().with_pre_inline();
+    let g2 = G::default().depth(2).with_digit_sup().with_pre_inline();
     Property {
         id: "C02",
         level: "exploration",
@@ -116,7 +121,7 @@ pub fn property() -> Property {
         hang_is_violation: false,
         subs: vec![
             crate::engine::EnumSub::new("regressions", false, |_| regression_items(), check_explicit).boxed(),
-            PropSub::new("grammar", 48_000, 480_000, move || doc_case(g.clone(), 1..=120, cfg_bounded(), false), check_width).with_validity(|c| c.doc.valid()).boxed(),
+            PropSub::new("grammar", 48_000, 480_000, move || doc_case(g.clone(), 1..=120, cfg_bounded_css(), false), check_width).with_validity(|c| c.doc.valid()).boxed(),
             PropSub::new("mutated", 24_000, 240_000, move || doc_case(g2.clone(), 1..=120, cfg_bounded(), true), check_width).with_validity(|c| c.doc.valid()).boxed(),
             FuzzSub { name: "fuzz_render", target: "fuzz_render", props: &["C02"], seconds: 120 }.boxed(),
             FuzzSub { name: "fuzz_struct", target: "fuzz_struct", props: &["C02"], seconds: 120 }.boxed(),
